@@ -51,11 +51,11 @@ CHECKS = {
         "technique": "explicit-state bounded model checking: every history <= d x all 25 bound pairs x every cursor program <= L on the real range_scan, against a vector reference cursor over the model map",
         "design_ref": "DESIGN.md 3.1, 4 (C03)",
         "jobs": {
-            "quick": [tree("C03", 3, 1, ["--scan-len-full", 3, "--scan-len-rest", 2]), seq("C03", 3, "B-l0,C-default,E-files2", ["--scan-len-full", 3, "--scan-len-rest", 2])],
-            "thorough": [tree("C03", 4, 2, ["--scan-len-full", 3, "--scan-len-rest", 2], timeout=6000), seq("C03", 4, "B-l0,C-default,E-files2", ["--scan-len-full", 4, "--scan-len-rest", 3]), seq("C03", 3, "A-min,D-stall12", ["--scan-len-full", 3, "--scan-len-rest", 2])],
+            "quick": [{"ws": "harness", "bin": "sched_store", "args": ["--prop", "C03"], "timeout": 1200}, tree("C03", 3, 1, ["--scan-len-full", 3, "--scan-len-rest", 2]), seq("C03", 3, "B-l0,C-default,E-files2", ["--scan-len-full", 3, "--scan-len-rest", 2])],
+            "thorough": [{"ws": "harness", "bin": "sched_store", "args": ["--prop", "C03"], "timeout": 7200}, tree("C03", 4, 2, ["--scan-len-full", 3, "--scan-len-rest", 2], timeout=6000), seq("C03", 4, "B-l0,C-default,E-files2", ["--scan-len-full", 4, "--scan-len-rest", 3]), seq("C03", 3, "A-min,D-stall12", ["--scan-len-full", 3, "--scan-len-rest", 2])],
         },
         "text": "At the end of every history (as C01, one level shallower) a fresh KeyValueStore::range_scan is opened for each of the 25 combinations of unbounded/included/excluded bounds over {a,b} (including empty and inverted ranges) and every program of up to L calls over {next, prev, seek_to_first, seek_to_last, seek(5 targets)} is run on it; the observation after the last call must equal a vector cursor over the model restricted to the bounds.",
-        "note": "Reference movement semantics are those of sst::reference::ReferenceCursor (positions -1..n, saturating). Per bound pair: every program <= 2 from a fresh cursor, and every program <= L that begins with an absolute positioning call, chained on one cursor and compared after every call (L = 3 for three representative bound pairs and 2 for the rest in the quick tier; 4/3 thorough). The program tree is walked once per distinct read signature (per-component entries up to order-preserving renaming of timestamps), which is exact for reads. A further job runs the same oracles on a bare LsmTree fed through LsmTree::ingest with externally built SSTs (ten file shapes: single puts and tombstones, whole-range files, a 5 KiB value, two versions of a key in one file; timestamps grow with the step), compaction steps, reopen and verifier passes, from the empty tree and from four seeded states (stacked oldest levels with and without a pending level-0 file, a lower-level file whose timestamps straddle an overlapping upper-level file, before and after reopening). Where the alphabet says so (C01 C04 C08 C20) it also contains two file shapes whose timestamp range straddles earlier files and ingests that park on the level-0 stall (helper thread, completed by whichever later compaction step makes room; a parked flush F! does the same for the store subject): the interplay of a stalled writer with compactions and GCs is then part of the sequential state space.",
+        "note": "Reference movement semantics are those of sst::reference::ReferenceCursor (positions -1..n, saturating). Per bound pair: every program <= 2 from a fresh cursor, and every program <= L that begins with an absolute positioning call, chained on one cursor and compared after every call (L = 3 for three representative bound pairs and 2 for the rest in the quick tier; 4/3 thorough). The program tree is walked once per distinct read signature (per-component entries up to order-preserving renaming of timestamps), which is exact for reads. A further job runs the same oracles on a bare LsmTree fed through LsmTree::ingest with externally built SSTs (ten file shapes: single puts and tombstones, whole-range files, a 5 KiB value, two versions of a key in one file; timestamps grow with the step), compaction steps, reopen and verifier passes, from the empty tree and from four seeded states (stacked oldest levels with and without a pending level-0 file, a lower-level file whose timestamps straddle an overlapping upper-level file, before and after reopening). Where the alphabet says so (C01 C04 C08 C20) it also contains two file shapes whose timestamp range straddles earlier files and ingests that park on the level-0 stall (helper thread, completed by whichever later compaction step makes room; a parked flush F! does the same for the store subject): the interplay of a stalled writer with compactions and GCs is then part of the sequential state space. Concurrency: sched_store --prop C03 runs one scan against an overwrite (or a delete), a flush and compaction-until-idle that garbage-collects the old version at the oldest level, switching at the named points of the read and write paths (among them: after the scan has captured memtables, version and timestamp), every schedule with <= 2 preemptions (thorough 3); the scan must equal the store's contents at some instant between its call and its return.",
     },
     "C02": {
         "level": "fault_enumeration",
@@ -273,7 +273,7 @@ CHECKS = {
     },
 }
 
-HOOK_COMMITS = ["78dca42", "83c0526", "7e7e701", "cedc0ca", "1e0b4ae", "49a3800", "fab6de6"]
+HOOK_COMMITS = ["78dca42", "83c0526", "7e7e701", "cedc0ca", "1e0b4ae", "49a3800", "fab6de6", "314c8aa"]
 
 ENGINES = [
     {"name": "damagemc", "path": "harness/damagemc", "serves_properties": ["C09"], "kind_free_text": "exhaustive single (and paired) damage of finished SST / log / manifest files, read programs compared with the pristine observation"},
